@@ -310,6 +310,7 @@ static Plan plan_C04(Rng& r, const std::string&) {
 			if (o.max_states > 10) o.max_rules = 3 * o.max_states;
 			TA A = gen_ta(r, pool, o);
 			int a = g.load(A, 0);
+			if (r.chance(1, 6)) g.push(mk(c, "et_rejected", {g.any(), 1}));      // a ComputeSimulation call the library turns down (unset parameters)
 			int k = r.range(1, 3);
 			for (int i = 0; i < k; ++i) g.push(mk(c, "et_sim", {a, long(r.below(2)), long(r.below(100000)), long(r.below(4)) + (r.chance(1, 4) ? 4 : 0)}));
 			if (r.chance(1, 4)) {
@@ -345,6 +346,7 @@ static Plan plan_C05(Rng& r, const std::string&) {
 			int sp = r.range(0, 3); for (int i = 0; i < sp; ++i) A = derive_ta(r, pool, A, 4);
 			int a = g.load(A, 0);
 			if (r.chance(1, 3)) g.push(mk(c, "et_copy", {a}), 0);
+			if (r.chance(1, 5)) g.push(mk(c, "et_rejected", {g.any(), 0}));      // a Reduce call the library turns down (unset parameters) before the ordinary ones
 			g.push(mk(c, "et_reduce", {a}), 0);
 			if (r.chance(1, 5) && A.states().size() <= 8) { int x = g.derived(a, A, pool); g.push(mk(c, "et_reduce", {x}), 0); }      // Reduce of a RESULT
 			if (r.chance(1, 6) && A.states().size() <= 8) g.push(cli_step(r, c, 0, 6, mdl::to_lit(A), ""));      // vata red
